@@ -87,9 +87,17 @@ def dumpBuf (name : String) (b : Buf) : String :=
 def mkBuf (n cols size : Nat) (data : List Col) : Buf := { n := n, cols := cols, size := size, maxSize := size, data := data }
 
 /-- Executes one statement; `none` = model-level panic (unknown buffer, index out of range …). -/
-def stmt (n : Nat) (e : Env) (out : List String) (st : List String) : Option (Env × List String) :=
+def stmt (be : String) (n : Nat) (e : Env) (out : List String) (st : List String) : Option (Env × List String) :=
   let N := nat!
+  let wrapBig : Int → Int := if be.startsWith "ntt120" then w128 else w64
   match st with
+  | ["cnv_by_const", off, b, bc, x, xc, cs] =>
+    match getBuf e b, getBuf e x with
+    | some (kb, bb), some (_, bx) =>
+      if N bc < bb.cols ∧ N xc < bx.cols then
+        some (e.put b (.buf kb (opCnvByConst wrapBig (N off) bb (N bc) bx (N xc) (ints cs))), out)
+      else none
+    | _, _ => none
   | ["vec", x, cols, size, g] =>
     let (d, _) := (Gen.parse g).cols n (N cols) (N size)
     some (e.put x (.buf "vec" (mkBuf n (N cols) (N size) d)), out)
@@ -286,7 +294,8 @@ def handle (ts : List String) : String :=
   | [] => "bad-op"
   | head :: stmts =>
     let n := kvNat head "n"
-    let r := stmts.foldl (fun (acc : Option (Env × List String)) st => acc.bind (fun (e, o) => stmt n e o st)) (some ([], []))
+    let be := (kv head "be").getD "fft64ref"
+    let r := stmts.foldl (fun (acc : Option (Env × List String)) st => acc.bind (fun (e, o) => stmt be n e o st)) (some ([], []))
     match r with
     | some (_, out) => " ".intercalate ("ok" :: out)
     | none => "panic:model"
